@@ -26,6 +26,7 @@ fn main() {
     let mut evidence = None;
     let mut replays = "/verif/replays".to_string();
     let mut workers = 16usize;
+    let mut dump_small: Option<String> = None;
     let mut i = 2;
     while i < args.len() {
         let v = args.get(i + 1).cloned().unwrap_or_default();
@@ -37,6 +38,7 @@ fn main() {
             "--replays" => replays = v,
             "--workers" => workers = v.parse().unwrap_or(16),
             "--crash-file" => hbv::crash::install(&v),
+            "--dump-small" => dump_small = Some(v),
             x => {
                 eprintln!("unknown argument {x}");
                 std::process::exit(2);
@@ -80,6 +82,12 @@ fn main() {
             f.violation.detail.replace('\n', " ")
         );
         n_viol += 1;
+    }
+    if let Some(dir) = dump_small {
+        let _ = std::fs::create_dir_all(&dir);
+        for (i, c) in r.stats.small_cases.iter().enumerate() {
+            let _ = std::fs::write(format!("{dir}/small-{i:03}.case"), c);
+        }
     }
     let ev = engine::evidence_json(def, tier, seed, &r, n_viol, serde_json::json!({}));
     if let Some(p) = evidence {
